@@ -74,6 +74,15 @@ PtrLoadAllowed(ev) ==
     ELSE /\ ev.cls = "in" /\ ev.sb = ev.own                     \* inside its own sandbox, never another (C03/C04)
          /\ (Lt(ev.rep, FromInt(ev.size)) => ev.off = ToInt(ev.rep))   \* valid representations are faithful
 
+\* a run of consecutive representations replo..rephi read through one position, all with the same
+\* class / sandbox and the same difference d = off - rep: judged at its ends. Faithfulness
+\* (off = rep below the region size) holds for the whole run iff d = 0 where the run starts below
+\* the size (a run with d = 0 cannot extend beyond it, since off < size).
+PtrLoadRunAllowed(ev) ==
+  /\ ~IsZero(ev.replo) /\ Lt(ev.replo, ev.rephi)
+  /\ ev.out = "ok" /\ ev.cls = "in" /\ ev.sb = ev.own
+  /\ (Lt(ev.replo, FromInt(ev.size)) => IsZero(ev.d))
+
 \* any pointer-producing operation (arithmetic, indexing, casts, opaque round trip, reload from a
 \* cell, allocation, app_pointer, the checked raw-pointer entry points): the tainted pointer
 \* obtained is null or inside the sandbox it belongs to, or the operation aborted (C03 NeverOut)
